@@ -23,9 +23,17 @@ class RErr(Exception):
     pass
 
 
+class RPairs(list):
+    """[(member, score), ...]: RESP3 answers an array of [member, double] pairs, RESP2 a flat array of bulk strings"""
+
+
 def enc(v, p3=True):
     if v is None:
         return b"_\r\n" if p3 else b"$-1\r\n"
+    if isinstance(v, RPairs):
+        if p3:
+            return enc([[m, RDbl(x)] for m, x in v], p3)
+        return enc([y for m, x in v for y in (m, _fmt_score(float(x)))], p3)
     if isinstance(v, RMap):
         if p3:
             return b"%%%d\r\n" % len(v) + b"".join(enc(k, p3) + enc(x, p3) for k, x in v.items())
@@ -445,6 +453,9 @@ class FakeRedis:
                 i = opt.index(b"LIMIT")
                 off, cnt = int(opt[i + 1]), int(opt[i + 2])
                 sel = sel[off:off + cnt] if cnt >= 0 else sel[off:]
+            if b"WITHSCORES" in opt:
+                d = dict(items)
+                return RPairs([(m, d[m]) for m in sel])
             return sel
         s, e, n = int(s), int(e), len(items)
         if s < 0:
@@ -453,6 +464,8 @@ class FakeRedis:
             e = n + e
         if s > e or s >= n:
             return []
+        if b"WITHSCORES" in opt:
+            return RPairs(items[s:e + 1])
         return [m for m, v in items[s:e + 1]]
 
     def c_ZSCAN(self, k, cur, *o):
